@@ -1,7 +1,7 @@
 (* C04 -- Master/minion and VirtualServer/Route composition is exactly as declared.
    Only statements, each closed by [exact] and followed by Print Assumptions. *)
 From Coq Require Import List ZArith String Bool.
-From NIC Require Import Base.SMap Arb.Types Arb.Model Arb.Spec Arb.WinsProofs Arb.InvProofs Arb.ComposeProofs Arb.MinionProofs.
+From NIC Require Import Base.SMap Arb.Types Arb.Model Arb.Spec Arb.WinsProofs Arb.InvProofs Arb.ComposeProofs Arb.MinionProofs Arb.ListenerProofs Arb.MinionGen1 Arb.MinionGen2.
 Import ListNotations.
 Open Scope Z_scope.
 
@@ -61,6 +61,34 @@ Theorem C04_path_served_by_least_minion :
     option_map fst (least (claimants (claims_of (minions_of is_ host)) p)) = Some mk.
 Proof. exact minion_path_owner. Qed.
 Print Assumptions C04_path_served_by_least_minion.
+
+(* The same without the restriction on the minions: a minion may list a path any number of times (validation
+   allows it; defect F44 was there), the minions only have to be distinct objects -- which [minions_of] of a store
+   keyed by namespace/name always are ([C04_minions_distinct]). *)
+Theorem C04_path_served_by_least_minion_general :
+  forall ms mk p,
+    distinct_keys ms ->
+    uids_distinct (claimants (claims_of ms) p) ->
+    let s := scan ms (mkMS [] [] []) in
+    vp_get (ms_vp s) mk p = Some true <->
+    option_map fst (least (claimants (claims_of ms) p)) = Some mk.
+Proof. exact minion_path_owner_gen. Qed.
+Print Assumptions C04_path_served_by_least_minion_general.
+
+Theorem C04_minions_distinct :
+  forall is_ host, wf is_ -> keyed (fun i => mkey (i_meta i)) is_ -> distinct_keys (minions_of is_ host).
+Proof. exact minions_of_distinct. Qed.
+Print Assumptions C04_minions_distinct.
+
+(* every minion that lists a path is the least claimant of it or carries a child warning: nobody loses a path
+   silently *)
+Theorem C04_losing_minion_is_warned :
+  forall ms i p,
+    distinct_keys ms -> uids_distinct (claimants (claims_of ms) p) -> In i ms -> In p (i_paths i) ->
+    let s := scan ms (mkMS [] [] []) in
+    option_map fst (least (claimants (claims_of ms) p)) = Some (mkey (i_meta i)) \/ cw_get (ms_cw s) (mkey (i_meta i)) <> [].
+Proof. exact minion_warned. Qed.
+Print Assumptions C04_losing_minion_is_warned.
 
 (* and the ValidPaths rendered with each attached minion are exactly those marks *)
 Theorem C04_valid_paths_are_the_marks :
